@@ -34,6 +34,12 @@ C["C18"] = ("Coq theorems: the composed cursor decodes back to (node index, node
             "exactly sum(chain)+1 calls, returns exactly the nodes' key batches and visits each node once along its chain. Tie: the real handleScan/Convert/reply hook driven through the "
             "white-box environment: full client iterations over scripted nodes (cursors around 2^47/2^48) and single calls with boundary cursors and malformed node replies vs the extracted model.",
             "Host list unchanged during an iteration; node cursors below 2^48; more than 32767 nodes exceed int64 cursors (documented boundary).", "DESIGN.md §4 C18")
+C["C13"] = ("Coq theorems for an abstract compressor (any comp/decomp with decomp(comp x)=Some x) over the magic number, value positions, disabled-command and skip lists regenerated from "
+            "filter_compress.go: a value not starting with the header reads back identical at every threshold; what reaches the backend is the original or header++stream that decompresses to "
+            "it and is strictly shorter; a re-sent (redirected) request is not compressed again; reading keeps working after compression is switched off; disabled commands are answered "
+            "locally. Tie: tables regenerated each run; operation sequences (config changes, all nine write commands, forced MOVED, reads) through the real handlers/filter/hooks against a fake "
+            "store, compared with the extracted model fed snappy's real output, with a no-compression model (the property's oracle), a stored-bytes oracle, and a concurrent-writers run.",
+            "snappy itself is not modelled; values starting with the header are excluded as the property states.", "DESIGN.md §4 C13")
 checks = []
 for pid in sorted(C):
     text, note, ref = C[pid]
